@@ -4,24 +4,6 @@
 From PV Require Import Base.Prelude Wire.SeqSet Search.Text Search.Keys Search.Msg
      Search.Spec Search.Model.
 
-(* one query on a view: (UID SEARCH?, program, ids of the SEARCH response sorted
-   ascending).  The hypotheses of the theorems (wf_key) are checked too, and
-   the RFC evaluator is run next to the model. *)
-Definition chk_query (v : view) (c : bool * list key * list N) : bool :=
-  let '(uid, prog, obs) := c in
-  forallb wf_key prog &&
-  match search_model [] 0 uid (map compile prog) v with
-  | Ok r => eqb_list N.eqb r obs && eqb_list N.eqb (spec_search uid prog v) obs
-  | _ => false
-  end.
-
-(* a probed view with all the queries that were run on it *)
-Definition chk_view (c : view * list (bool * list key * list N)) : bool :=
-  wf_view (fst c) && forallb (chk_query (fst c)) (snd c).
-
-Definition chk_view_query (c : view * (bool * list key * list N)) : bool :=
-  wf_view (fst c) && chk_query (fst c) (snd c).
-
 (* parser level: the SearchKey values the real SearchCommand.parse built for the
    wire form of a program (a frozenset: compared as sets) *)
 Definition subset_keys (a b : list skey) : bool :=
@@ -29,6 +11,59 @@ Definition subset_keys (a b : list skey) : bool :=
 Definition chk_parse (c : list key * list skey) : bool :=
   let want := map compile (fst c) in
   subset_keys want (snd c) && subset_keys (snd c) want.
+
+(* one query on a view: (UID SEARCH?, program, ids of the SEARCH response sorted
+   ascending, the parser's values).  The hypotheses of the theorems (wf_key)
+   are checked too, and the RFC evaluator is run next to the model. *)
+Definition query := (bool * list key * list N * list skey)%type.
+Definition chk_query (v : view) (c : query) : bool :=
+  let '(uid, prog, obs, parsed) := c in
+  forallb wf_key prog && chk_parse (prog, parsed) &&
+  match search_model [] 0 uid (map compile prog) v with
+  | Ok r => eqb_list N.eqb r obs && eqb_list N.eqb (spec_search uid prog v) obs
+  | _ => false
+  end.
+
+(* A case is one mailbox: the immutable part of every message that was ever
+   probed (by UID) and the probed views (UID, sequence number, flags) with the
+   queries that ran on each. *)
+Record content := mkContent {
+  c_size : N; c_idate : date; c_sdate : option date;
+  c_headers : list (bytes * str); c_parts : list part;
+  c_emailid : bytes; c_threadid : bytes }.
+Definition pool := list (N * content).
+Definition entry := (N * N * list bytes)%type.          (* uid, seq, flags *)
+
+Fixpoint lookup (p : pool) (uid : N) : option content :=
+  match p with
+  | [] => None
+  | (u, c) :: r => if (u =? uid)%N then Some c else lookup r uid
+  end.
+
+Fixpoint build_view (p : pool) (es : list entry) : option view :=
+  match es with
+  | [] => Some []
+  | (uid, seq, flags) :: r =>
+    match lookup p uid, build_view p r with
+    | Some c, Some v =>
+      Some (mkMsg uid seq flags (c_size c) (c_idate c) (c_sdate c) (c_headers c)
+                  (c_parts c) (c_emailid c) (c_threadid c) :: v)
+    | _, _ => None
+    end
+  end.
+
+Definition chk_box (c : pool * list (list entry * list query)) : bool :=
+  forallb (fun vq => match build_view (fst c) (fst vq) with
+                     | Some v => wf_view v && forallb (chk_query v) (snd vq)
+                     | None => false
+                     end) (snd c).
+
+Definition chk_box_query (c : pool * list entry * query) : bool :=
+  let '(p, es, q) := c in
+  match build_view p es with
+  | Some v => wf_view v && chk_query v q
+  | None => false
+  end.
 
 (* SearchCriteria._in(substr, data) on str, and the bytes search of contains() *)
 Definition chk_in (c : list N * list N * bool) : bool :=
